@@ -18,6 +18,7 @@ import (
 	"github.com/samaritan-proxy/samaritan/pb/config/service"
 	"github.com/samaritan-proxy/samaritan/proc"
 	_ "github.com/samaritan-proxy/samaritan/proc/tcp"
+	"github.com/samaritan-proxy/samaritan/proc/verifexport"
 
 	"verifharness/internal/cli"
 	"verifharness/internal/sut"
@@ -57,8 +58,9 @@ type relayEvent struct {
 
 // relay is one relayed connection as the backend sees it.
 type relay struct {
-	id int // client id from the token (0: none)
-	c  net.Conn
+	id   int // client id from the token (0: none)
+	back int // backend index
+	c    net.Conn
 
 	mu      sync.Mutex
 	peerEOF bool // read side saw EOF / an error
@@ -119,10 +121,44 @@ func newFixture(n int) (*fixture, error) {
 	return fx, nil
 }
 
-func (b *backend) serve() {
+// setRefusing closes the listener (connections are refused, established relays stay) or
+// listens again on the same address.
+func (b *backend) setRefusing(refuse bool) error {
+	b.mu.Lock()
+	defer b.mu.Unlock()
+	if refuse == (b.ln == nil) {
+		return nil
+	}
+	if refuse {
+		b.ln.Close()
+		b.ln = nil
+		return nil
+	}
+	// while the listener was closed the port may have been taken as the source port of some
+	// short-lived outgoing connection of this machine: retry for a while
+	var ln net.Listener
+	var err error
+	for try := 0; try < 100; try++ {
+		if ln, err = net.Listen("tcp", b.addr); err == nil {
+			break
+		}
+		time.Sleep(20 * time.Millisecond)
+	}
+	if err != nil {
+		return err
+	}
+	b.ln = ln
+	b.fx.wg.Add(1)
+	go b.serveOn(ln)
+	return nil
+}
+
+func (b *backend) serve() { b.serveOn(b.ln) }
+
+func (b *backend) serveOn(ln net.Listener) {
 	defer b.fx.wg.Done()
 	for {
-		c, err := b.ln.Accept()
+		c, err := ln.Accept()
 		if err != nil {
 			return
 		}
@@ -150,7 +186,7 @@ func (b *backend) handle(c net.Conn) {
 		b.mu.Unlock()
 		return
 	}
-	rl := &relay{c: c}
+	rl := &relay{c: c, back: b.idx}
 	fmt.Sscanf(line, "C%d", &rl.id)
 	b.fx.mu.Lock()
 	b.fx.seq++
@@ -215,6 +251,24 @@ func (fx *fixture) halfClose(id int) error {
 	rl.wrShut = true
 	rl.mu.Unlock()
 	return rl.c.(*net.TCPConn).CloseWrite()
+}
+
+// realCounts returns, per backend, the relays the backend currently holds (accepted with a
+// client token and not yet seen closed by the processor).
+func (fx *fixture) realCounts() []int {
+	out := make([]int, len(fx.bs))
+	fx.mu.Lock()
+	rls := make([]*relay, 0, len(fx.byID))
+	for _, r := range fx.byID {
+		rls = append(rls, r)
+	}
+	fx.mu.Unlock()
+	for _, r := range rls {
+		if _, closed := r.get(); !closed {
+			out[r.back-1]++
+		}
+	}
+	return out
 }
 
 func (fx *fixture) relayOf(id int) *relay {
@@ -289,8 +343,10 @@ func (fx *fixture) close() {
 		r.c.Close()
 	}
 	for _, b := range fx.bs {
-		b.ln.Close()
 		b.mu.Lock()
+		if b.ln != nil {
+			b.ln.Close()
+		}
 		for _, p := range b.held {
 			p.c.Close()
 		}
@@ -337,6 +393,9 @@ type EStep struct {
 	Probed    []int      `json:"probed"`
 	ID        int        `json:"id"`
 	Side      string     `json:"side"` // HalfClose: "chc" (client) | "bhc" (backend)
+	R1        int        `json:"r1"`   // Conn: values of the scripted random source
+	R2        int        `json:"r2"`
+	Refusing  bool       `json:"refusing"` // Refuse: the backend refuses after the step
 	Chosen    int        `json:"chosen"`
 	Est       bool       `json:"est"`
 	Allowed   []int      `json:"allowed"`
@@ -357,8 +416,13 @@ type EObs struct {
 	MustOpen    []int  `json:"mustStillOpen,omitempty"`    // ... and that the client still saw open at the deadline
 	BackendOpen []int  `json:"backendStillOpen,omitempty"` // ... and whose backend side was not closed at the deadline
 	DeadlineMs  int    `json:"deadlineMs,omitempty"`
-	Probes      []int  `json:"probes,omitempty"`  // Round: backends whose probe was released
-	Skipped     bool   `json:"skipped,omitempty"` // HalfClose of a connection that is not open in reality
+	Probes      []int  `json:"probes,omitempty"`    // Round: backends whose probe was released
+	Skipped     bool   `json:"skipped,omitempty"`   // HalfClose / CloseConn of a connection that is not open in reality
+	Counts      []int  `json:"counts"`              // per address: ConnCount() summed over the host objects the harness delivered for it
+	Real        []int  `json:"real"`                // per address: relays its backend holds
+	Held        []int  `json:"held"`                // per address: client connections the harness holds open
+	CountsOff   bool   `json:"countsOff,omitempty"` // counts != real even after the settle time
+	SettleMs    int    `json:"settleMs,omitempty"`
 }
 
 type EResult struct {
@@ -418,14 +482,17 @@ type e2eRun struct {
 	p             proc.Proc
 	addr          string
 	clients       map[int]*clientConn
+	objs          [][]*host.Host // per address: the host objects delivered to the processor
+	settle        time.Duration
+	countsBroken  bool
 	longLeft      *int // remaining must-close checks with the generous deadline
 	longD, shortD time.Duration
 }
 
-func tcpConfig(port int, policy string) *service.Config {
+func tcpConfig(port int, policy string, nohc bool) *service.Config {
 	ct := time.Second
 	it := 10 * time.Minute
-	return &service.Config{
+	cfg := &service.Config{
 		Listener:       &service.Listener{Address: &common.Address{Ip: "127.0.0.1", Port: uint32(port)}},
 		Protocol:       protocol.TCP,
 		LbPolicy:       policyOf(policy),
@@ -438,6 +505,10 @@ func tcpConfig(port int, policy string) *service.Config {
 			}},
 		},
 	}
+	if nohc {
+		cfg.HealthCheck = nil // no monitor: a refusing backend stays in the usable list
+	}
+	return cfg
 }
 
 func (r *e2eRun) hosts(s *EStep) []*host.Host {
@@ -446,7 +517,11 @@ func (r *e2eRun) hosts(s *EStep) []*host.Host {
 		if t == "backup" {
 			typ = host.TypeBackup
 		}
-		return host.NewWithType(r.fx.bs[a-1].addr, typ) // fresh, as controller.endpointsToHosts
+		h := host.NewWithType(r.fx.bs[a-1].addr, typ) // fresh, as controller.endpointsToHosts
+		if s.Op != "Remove" {
+			r.objs[a-1] = append(r.objs[a-1], h) // the set stores the delivered object
+		}
+		return h
 	}
 	if s.Op == "ReplaceAll" {
 		var hs []*host.Host
@@ -564,7 +639,68 @@ func (r *e2eRun) sweep(leaving map[int]bool, o *EObs) {
 	}
 }
 
-func runE2E(id int, policy string, steps []EStep, naddr int, longLeft *int, longD, shortD time.Duration) (res EResult) {
+// readCounts compares, at a quiescent point, the connection counts of the delivered host
+// objects with the relays the backends hold; both sides lag a little behind what the client
+// sees (DecConnCount runs when HandleConn returns), so it polls up to the settle time.
+func (r *e2eRun) readCounts(o *EObs) {
+	dl := time.Now().Add(r.settle)
+	if r.countsBroken {
+		dl = time.Now() // the counts of this run are known to be off: do not wait for them again
+	}
+	for {
+		counts := make([]int, len(r.objs))
+		for a, hs := range r.objs {
+			for _, h := range hs {
+				counts[a] += int(h.ConnCount())
+			}
+		}
+		real := r.fx.realCounts()
+		held := make([]int, len(r.objs)) // relays the harness holds: client connections that are open
+		for _, cc := range r.clients {
+			held[cc.back-1]++
+		}
+		for a := range counts {
+			if counts[a] < held[a] || real[a] < held[a] {
+				// a relay has ended and the harness has not noticed yet: look at the clients again
+				ids := []int{}
+				for id := range r.clients {
+					ids = append(ids, id)
+				}
+				sort.Ints(ids)
+				for _, id := range ids {
+					if cc := r.clients[id]; cc.isClosed(time.Millisecond) {
+						o.ClosedNow = append(o.ClosedNow, id)
+						cc.c.Close()
+						delete(r.clients, id)
+					}
+				}
+				break
+			}
+		}
+		same := true
+		for a := range counts {
+			if counts[a] != real[a] || counts[a] != held[a] {
+				same = false
+			}
+		}
+		o.Counts, o.Real, o.Held = counts, real, held
+		if same {
+			o.CountsOff = false
+			return
+		}
+		if time.Now().After(dl) {
+			o.CountsOff = true
+			if !r.countsBroken {
+				o.SettleMs = int(r.settle / time.Millisecond)
+			}
+			r.countsBroken = true
+			return
+		}
+		time.Sleep(500 * time.Microsecond)
+	}
+}
+
+func runE2E(id int, policy string, nohc bool, steps []EStep, naddr int, settle time.Duration, longLeft *int, longD, shortD time.Duration) (res EResult) {
 	res = EResult{ID: id, Policy: policy, Steps: len(steps)}
 	fx, err := newFixture(naddr)
 	if err != nil {
@@ -574,7 +710,7 @@ func runE2E(id int, policy string, steps []EStep, naddr int, longLeft *int, long
 	defer fx.close()
 	port := sut.FreePort()
 	name := sut.UniqueName("c06")
-	p, err := proc.New(name, tcpConfig(port, policy), nil)
+	p, err := proc.New(name, tcpConfig(port, policy, nohc), nil)
 	if err != nil {
 		res.Err = "proc.New: " + err.Error()
 		return
@@ -584,6 +720,7 @@ func runE2E(id int, policy string, steps []EStep, naddr int, longLeft *int, long
 		return
 	}
 	r := &e2eRun{fx: fx, p: p, addr: fmt.Sprintf("127.0.0.1:%d", port), clients: map[int]*clientConn{},
+		objs: make([][]*host.Host, naddr), settle: settle,
 		longLeft: longLeft, longD: longD, shortD: shortD}
 	defer func() {
 		for _, cc := range r.clients {
@@ -637,6 +774,33 @@ func runE2E(id int, policy string, steps []EStep, naddr int, longLeft *int, long
 			b.mu.Lock()
 			b.up = !b.up
 			b.mu.Unlock()
+		case "Refuse":
+			if err := fx.bs[s.A-1].setRefusing(s.Refusing); err != nil {
+				res.Err = fmt.Sprintf("step %d: %v", i, err)
+				return
+			}
+		case "CloseConn":
+			cc := r.clients[s.ID]
+			if cc == nil {
+				o.Skipped = true
+				break
+			}
+			cc.c.Close()
+			delete(r.clients, s.ID)
+			o.ClosedNow = append(o.ClosedNow, s.ID)
+			if rl := fx.relayOf(s.ID); rl != nil { // the relay ends: wait until the backend has seen it
+				dl := time.Now().Add(5 * time.Second)
+				for {
+					if _, closed := rl.get(); closed {
+						break
+					}
+					if time.Now().After(dl) {
+						res.Err = fmt.Sprintf("step %d: the backend did not see the end of the relay of connection %d", i, s.ID)
+						return
+					}
+					time.Sleep(200 * time.Microsecond)
+				}
+			}
 		case "HalfClose":
 			cc := r.clients[s.ID]
 			if cc == nil {
@@ -654,6 +818,14 @@ func runE2E(id int, policy string, steps []EStep, naddr int, longLeft *int, long
 			idle = true
 		case "Conn":
 			seq := fx.relaySeq()
+			switch policy { // the processor's balancer draws from the scripted random source
+			case "random":
+				setScript(s.R1)
+			case "lc":
+				setScript(s.R1, s.R2)
+			default:
+				setScript()
+			}
 			c, err := net.DialTimeout("tcp", r.addr, 2*time.Second)
 			if err != nil {
 				res.Err = fmt.Sprintf("step %d: dial proxy: %v", i, err)
@@ -696,7 +868,7 @@ func runE2E(id int, policy string, steps []EStep, naddr int, longLeft *int, long
 		}
 		// a new round starts at the next tick with the members present then; wait until its
 		// probes are held so that the monitor's snapshot is the one the model has
-		if idle && len(s.SnapAddrs) > 0 && s.Op != "Conn" && s.Op != "Toggle" && s.Op != "HalfClose" {
+		if idle && len(s.SnapAddrs) > 0 && (s.Op == "Add" || s.Op == "Remove" || s.Op == "ReplaceAll" || s.Op == "Round") {
 			if err := r.waitRound(s.SnapAddrs); err != nil {
 				res.Err = fmt.Sprintf("step %d (%s): %v", i, s.Op, err)
 				return
@@ -706,7 +878,7 @@ func runE2E(id int, policy string, steps []EStep, naddr int, longLeft *int, long
 			// nothing left to probe: let the marks of the released round finish (assumption: 30 ms)
 			time.Sleep(30 * time.Millisecond)
 		}
-		if s.Op != "Toggle" && s.Op != "HalfClose" {
+		if s.Op != "Toggle" && s.Op != "HalfClose" && s.Op != "Refuse" {
 			// addresses that stop being members by the meaning of the operation (variant independent)
 			leaving := map[int]bool{}
 			if i > 0 {
@@ -722,6 +894,7 @@ func runE2E(id int, policy string, steps []EStep, naddr int, longLeft *int, long
 			}
 			r.sweep(leaving, &o)
 		}
+		r.readCounts(&o)
 		res.Obs = append(res.Obs, o)
 	}
 	return
@@ -803,6 +976,7 @@ func cmdE2E(args []string) error {
 	long := fs.Int("long", 2, "must-close checks done with the generous deadline")
 	longMs := fs.Int("longms", 5000, "generous deadline (ms)")
 	shortMs := fs.Int("shortms", 300, "deadline once the generous one has been used up (ms)")
+	settleMs := fs.Int("settlems", 300, "time the connection counts are given to agree with the backends' relays (ms)")
 	if err := fs.Parse(args); err != nil {
 		return err
 	}
@@ -813,15 +987,18 @@ func cmdE2E(args []string) error {
 	defer w.Close()
 	id := 0
 	longLeft := *long
+	restore := verifexport.SetRandInt(scriptedRand)
+	defer restore()
 	return cli.ReadNDJSON(*in, func(line []byte) error {
 		var b struct {
 			Policy string  `json:"policy"`
+			NoHC   bool    `json:"nohc"`
 			Steps  []EStep `json:"steps"`
 		}
 		if err := json.Unmarshal(line, &b); err != nil {
 			return err
 		}
-		r := runE2E(id, b.Policy, b.Steps, *naddr, &longLeft, time.Duration(*longMs)*time.Millisecond, time.Duration(*shortMs)*time.Millisecond)
+		r := runE2E(id, b.Policy, b.NoHC, b.Steps, *naddr, time.Duration(*settleMs)*time.Millisecond, &longLeft, time.Duration(*longMs)*time.Millisecond, time.Duration(*shortMs)*time.Millisecond)
 		id++
 		return w.Write(r)
 	})
